@@ -1,7 +1,9 @@
 package checks
 
 import (
+	"context"
 	"fmt"
+	"github.com/DrmagicE/gmqtt/pkg/packets"
 	"reflect"
 	"sort"
 	"strings"
@@ -23,7 +25,11 @@ var c20Events = []string{
 	"advance(21s)", "TerminateSession(A)", "A.takeover(clean0)", "A.unsubscribe(t)", "A.connect(v5,clean1,expiry100)", "A.duplicate-PUBACK",
 	"X.tcp-open-close", "X.first-packet-PINGREQ", "X.CONNECT(v5,auth-method-without-OnAuth)-refused",
 	"A.publish(q0, topic alias above the advertised maximum): broker answers DISCONNECT 0x94",
+	"A.AUTH(re-authenticate, accepted by OnReAuth): broker answers AUTH", "A.connect(v5,clean0,expiry100,authentication method m accepted by OnEnhancedAuth)",
 }
+
+// c20AuthAlpha: the alphabet of the tree with authentication hooks installed (AUTH packets).
+var c20AuthAlpha = []int{23, 22, 8, 9, 10, 14, 2, 5, 1}
 
 // c20FailedAlpha: the sub-alphabet of the tree about connections that never attach.
 var c20FailedAlpha = []int{18, 19, 20, 1, 11, 0, 9, 12, 21, 2, 5}
@@ -74,6 +80,7 @@ func (t *c20Truth) packet(scope string, received bool, ptype byte, n int) {
 type c20Cfg struct {
 	maxQueued   int
 	maxInflight uint16
+	auth        bool // OnEnhancedAuth / OnReAuth hooks installed (both accept at once)
 }
 
 func c20Run(c *explore.Ctx, cf c20Cfg, seq []int) int {
@@ -82,13 +89,22 @@ func c20Run(c *explore.Ctx, cf c20Cfg, seq []int) int {
 		for i, e := range seq {
 			names[i] = c20Events[e]
 		}
-		return map[string]any{"max_queued": cf.maxQueued, "max_inflight": cf.maxInflight, "seq": append([]int{}, seq...), "events": names}
+		return map[string]any{"max_queued": cf.maxQueued, "max_inflight": cf.maxInflight, "auth_hooks": cf.auth, "seq": append([]int{}, seq...), "events": names}
 	}
 	applied := 0
 	execBody(c, "C20", cas, func() {
 		cfg := harness.DefaultConfig()
 		cfg.MQTT.MaxQueuedMsg, cfg.MQTT.MaxInflight = cf.maxQueued, cf.maxInflight
-		w := harness.NewWorld(cfg, server.Hooks{})
+		hooks := server.Hooks{}
+		if cf.auth {
+			hooks.OnEnhancedAuth = func(ctx context.Context, client server.Client, req *server.ConnectRequest) (*server.EnhancedAuthResponse, error) {
+				return &server.EnhancedAuthResponse{}, nil
+			}
+			hooks.OnReAuth = func(ctx context.Context, client server.Client, auth *packets.Auth) (*server.AuthResponse, error) {
+				return &server.AuthResponse{}, nil
+			}
+		}
+		w := harness.NewWorld(cfg, hooks)
 		if w.InitErr != nil {
 			c.Fatal("init: %v", w.InitErr)
 			return
@@ -144,6 +160,7 @@ func c20Run(c *explore.Ctx, cf c20Cfg, seq []int) int {
 			T.add("global.ConnectionStats.SessionTerminated."+reason, 1)
 			T.clearPrefix("client:" + id + ".")
 		}
+		authMethod := false
 		connect := func(s *side, id string, ver byte, clean bool, name string) bool {
 			old := s.cl
 			wasOnline := s.online
@@ -153,6 +170,9 @@ func c20Run(c *explore.Ctx, cf c20Cfg, seq []int) int {
 			o := harness.ConnectOpts{ClientID: id, Clean: clean, Version: ver}
 			if ver == refmqtt.V5 {
 				o.Props = &refmqtt.Props{SessionExpiry: harness.U32(100)}
+				if authMethod {
+					o.Props.AuthMethod = harness.Str("m")
+				}
 			}
 			_ = old
 			send(s, id, harness.ConnectPacket(o))
@@ -185,11 +205,12 @@ func c20Run(c *explore.Ctx, cf c20Cfg, seq []int) int {
 		for i, e := range seq {
 			ok := true
 			switch e {
-			case 0, 14, 16:
-				if (e != 14) == A.online {
+			case 0, 14, 16, 23:
+				if (e != 14) == A.online || (e == 23) != cf.auth || (cf.auth && e != 23 && e != 14) {
 					ok = false
 					break
 				}
+				authMethod = cf.auth
 				old := A.cl
 				oldAcc := A.accIn
 				if !connect(&A, "a", refmqtt.V5, e == 16, fmt.Sprintf("A%d", i)) {
@@ -339,6 +360,13 @@ func c20Run(c *explore.Ctx, cf c20Cfg, seq []int) int {
 				A.ackedIDs = nil
 				T.add("global.ConnectionStats.DisconnectedTotal", 1)
 				c20Offline(&A.queue)
+			case 22:
+				if !online(&A) || !cf.auth {
+					ok = false
+					break
+				}
+				// (the broker compares the connection's method with the packet's Authentication Data)
+				send(&A, "a", &refmqtt.Packet{Type: refmqtt.AUTH, Code: 0x19, Props: &refmqtt.Props{AuthMethod: harness.Str("m"), AuthData: []byte("m"), HasAuthData: true}})
 			case 11:
 				if !online(&B) {
 					ok = false
@@ -600,14 +628,14 @@ func c20Gauges(q []c20Q) (queued, inflight uint64) {
 
 func runC20(c *explore.Ctx) {
 	c.Level = "model_checking"
-	c.Rule = "E2: every sequence of the 19-event alphabet (a protocol error answered by a broker-originated DISCONNECT, connect v5 persistent / v3 clean, subscribe, publish QoS0/1/2 with PUBREL, ack, PINGREQ, DISCONNECT, abrupt close, clock advance, TerminateSession, take-over, unsubscribe) over two clients up to the depth, plus a tree (depth-1) over connections that never attach (TCP open/close, first packet not CONNECT, CONNECT refused) mixed with ordinary connects and closes, for two broker configurations (default; max_queued 2 / max_inflight 1), on a fresh in-process broker; at every quiescent point every uint64 leaf of GetGlobalStats()/GetClientStats() (packets and bytes per type and direction, per-QoS messages received/sent, queued and in-flight gauges, connection/session counters and gauges) is compared with the harness's own packet log (wire lengths) and session/queue model."
+	c.Rule = "E2: every sequence of the 19-event alphabet (a protocol error answered by a broker-originated DISCONNECT, connect v5 persistent / v3 clean, subscribe, publish QoS0/1/2 with PUBREL, ack, PINGREQ, DISCONNECT, abrupt close, clock advance, TerminateSession, take-over, unsubscribe) over two clients up to the depth, plus a tree (depth-1) over connections that never attach (TCP open/close, first packet not CONNECT, CONNECT refused) mixed with ordinary connects and closes, plus a tree with authentication hooks installed (CONNECT with an authentication method, re-authentication: AUTH packets in both directions), for two broker configurations (default; max_queued 2 / max_inflight 1), on a fresh in-process broker; at every quiescent point every uint64 leaf of GetGlobalStats()/GetClientStats() (packets and bytes per type and direction, per-QoS messages received/sent, queued and in-flight gauges, connection/session counters and gauges) is compared with the harness's own packet log (wire lengths) and session/queue model."
 	c.Trusted = []string{"vsched default schedule", "refmqtt (packet lengths are the encoded lengths actually exchanged)"}
 	c.Assumptions = []string{"per-client statistics restart when the session is terminated (the broker deletes them); global counters keep the traffic of terminated sessions", "dropped-message counters are checked by C10/C12/C13 through the drop hook, not here"}
 	if rc := replayCase(c); rc != nil {
 		if concReplay(c, rc, "C20") {
 			return
 		}
-		c20Run(c, c20Cfg{int(rc["max_queued"].(float64)), uint16(rc["max_inflight"].(float64))}, intsOf(rc["seq"]))
+		c20Run(c, c20Cfg{int(rc["max_queued"].(float64)), uint16(rc["max_inflight"].(float64)), rc["auth_hooks"] == true}, intsOf(rc["seq"]))
 		return
 	}
 	depth := 4
@@ -619,7 +647,7 @@ func runC20(c *explore.Ctx) {
 	// directed non-initial state: A subscribed and offline, B online
 	for pi, prefix := range [][]int{{0, 2, 10, 1}, {0, 2, 1, 5}} {
 		prefix := prefix
-		for _, cf := range []c20Cfg{{1000, 100}, {2, 1}} {
+		for _, cf := range []c20Cfg{{1000, 100, false}, {2, 1, false}} {
 			cf := cf
 			treeUnits(c, fmt.Sprintf("tree-directed%d-q%d-i%d", pi, cf.maxQueued, cf.maxInflight), c20MainN, depth-1, func(seq []int) int {
 				full := append(append([]int{}, prefix...), seq...)
@@ -637,9 +665,16 @@ func runC20(c *explore.Ctx) {
 		for i, e := range seq {
 			full[i] = c20FailedAlpha[e]
 		}
-		return c20Run(c, c20Cfg{1000, 100}, full)
+		return c20Run(c, c20Cfg{1000, 100, false}, full)
 	})
-	for _, cf := range []c20Cfg{{1000, 100}, {2, 1}} {
+	treeUnits(c, "tree-auth-packets", len(c20AuthAlpha), depth, func(seq []int) int {
+		full := make([]int, len(seq))
+		for i, e := range seq {
+			full[i] = c20AuthAlpha[e]
+		}
+		return c20Run(c, c20Cfg{1000, 100, true}, full)
+	})
+	for _, cf := range []c20Cfg{{1000, 100, false}, {2, 1, false}} {
 		cf := cf
 		treeUnits(c, fmt.Sprintf("tree-q%d-i%d", cf.maxQueued, cf.maxInflight), c20MainN, depth, func(seq []int) int {
 			n := c20Run(c, cf, seq)
